@@ -765,7 +765,13 @@ func (w *World) formatInt(v Value, ii intInfo) Value {
 	}
 	t := v.(*Term)
 	if !ii.signed {
-		return w.tf.def(sortString, "(str.from_int (bv2nat "+t.S+"))")
+		r := w.tf.def(sortString, "(str.from_int (bv2nat "+t.S+"))")
+		// remember the number behind the text: ParseUint(FormatUint(x)) is x, no string reasoning needed
+		if w.fmtOrigin == nil {
+			w.fmtOrigin = map[string]*Term{}
+		}
+		w.fmtOrigin[r.S] = t
+		return r
 	}
 	zero := bvLit(0, t.Sort.W)
 	return w.tf.def(sortString, fmt.Sprintf("(ite (bvslt %s %s) (str.++ \"-\" (str.from_int (bv2nat (bvneg %s)))) (str.from_int (bv2nat %s)))", t.S, zero, t.S, t.S))
